@@ -55,6 +55,7 @@ type Scenario struct {
 	Txn      bool
 	Pipe     bool
 	Batch    int
+	BufSize  uint64 // BatchBufferSize (0 = practically unlimited): the byte limit of a batch
 	TargetDb int
 	DbMap    map[int]int
 	Black    []int
@@ -206,6 +207,13 @@ func itemsFromShape(r *hx.Rng, shape []string, sc *Scenario) {
 	}
 }
 
+func bufSize(sc *Scenario) uint64 {
+	if sc.BufSize == 0 {
+		return 1 << 40
+	}
+	return sc.BufSize
+}
+
 func genScenario(r *hx.Rng, id int, maxItems int) *Scenario {
 	sc := &Scenario{ID: id, TargetDb: -1, Start: int64(100 + r.Intn(1000)), Ticks: map[int][]string{}}
 	sc.Txn = r.Bool()
@@ -220,6 +228,11 @@ func genScenario(r *hx.Rng, id int, maxItems int) *Scenario {
 		sc.Black = []int{1}
 	case 3:
 		sc.TargetDb = 3
+	}
+	if r.Chance(30) {
+		// byte-limited batches: a few commands fill a batch, a long value overflows it on its own
+		sc.BufSize = uint64(30 + r.Intn(150))
+		sc.Batch = 2 + r.Intn(4)
 	}
 	n := 1 + r.Intn(maxItems)
 	genItems(r, n, sc)
@@ -340,7 +353,7 @@ func (rn *runner) newOutput() *syncer.RedisOutput {
 		InputName: "verif", CheckpointName: cpName, RunId: runID, CanTransaction: sc.Txn,
 		Redis: rn.redisCfg(), EnableResumeFromBreakPoint: true,
 		TargetDb: sc.TargetDb, TargetDbMap: sc.DbMap,
-		BatchCmdCount: uint(sc.Batch), BatchTicker: time.Hour, BatchBufferSize: 1 << 40,
+		BatchCmdCount: uint(sc.Batch), BatchTicker: time.Hour, BatchBufferSize: bufSize(sc),
 		KeepaliveTicker: time.Hour, UpdateCheckpointTicker: time.Hour,
 		ReplayPipeline: sc.Pipe, ReplayRdbParallel: 1,
 		Stats:  config.OutputStats{DisableLog: true},
